@@ -555,7 +555,8 @@ func main() {
 			s, err := extract(it)
 			if err != nil {
 				fmt.Printf("translate: %s: item %s: %v\n", filepath.Base(sf), it.Coq, err)
-				fmt.Fprintf(&buf, "(* MISSING %s: %v *)\n", it.Coq, err)
+				msg := strings.NewReplacer("\"", "'", "(*", "( *", "*)", "* )").Replace(fmt.Sprint(err))
+				fmt.Fprintf(&buf, "(* MISSING %s: %s *)\n", it.Coq, msg)
 				failed++
 				continue
 			}
